@@ -144,10 +144,7 @@ func GenStream(r *core.Rand, cfg *StreamCfg) *Stream {
 		// continue the dump, and carries the dump's indentation.
 		var first string
 		for {
-			first = JunkLine(r, &cfg.Junk)
-			if len(first) > 2000 {
-				continue
-			}
+			first = JunkLine(r, &cfg.Junk) // may be longer than the 16 KiB read buffer
 			if cannotContinue(first, d.F.TrailBlank) && cannotContinue(d.F.Indent+first, d.F.TrailBlank) && (first != "" || d.F.Indent == "") {
 				break
 			}
